@@ -15,16 +15,15 @@ Theorem C19_restored_is_owned :
   forall d i, from_dump d = LoadOk i -> d_state d <> ""%string -> owned i.
 Proof. exact restored_is_owned. Qed.
 
-(* full statement "every reachable round can be loaded back": refuted (witness: one decline) *)
-Theorem C19_all_loadable_refuted :
-  exists tr, from_dump (run_round initial_dump tr) = LoadErr.
-Proof. exact all_loadable_refuted. Qed.
-Print Assumptions C19_all_loadable_refuted.
+(* every state a round can reach - cancelled and finished rounds included - can be loaded back
+   (holds since the repair of the FSM pool, fix bd98172: final states are registered; before it six
+   cancelled states were not owned by any machine and one decline made a round unloadable) *)
+Theorem C19_all_loadable :
+  forall tr, exists i, from_dump (run_round initial_dump tr) = LoadOk i.
+Proof. exact all_loadable. Qed.
+Print Assumptions C19_all_loadable.
 
-(* strongest true version: for every history, the round is loadable unless it sits in one of the
-   six dead states listed in known_findings.jsonl *)
-Theorem C19_all_loadable_partial :
-  forall tr, let d := run_round initial_dump tr in
-  In (d_state d) dead_states \/ exists i, from_dump d = LoadOk i.
-Proof. exact all_loadable_partial. Qed.
-Print Assumptions C19_all_loadable_partial.
+Example C19_declined_round_is_loadable :
+  d_state (run_round initial_dump declined_history) = "state_sig_proposal_canceled_by_participant"%string /\
+  exists i, from_dump (run_round initial_dump declined_history) = LoadOk i.
+Proof. exact declined_round_is_loadable. Qed.
